@@ -8,6 +8,12 @@
     and a write cursor `b`; every access goes through `rd`/`wr`, so a read or write past the
     terminator is the outcome `.error .oob`, not a default value;
   * `char` is signed on the target (x86-64 gcc): `sc` is the value of a byte seen as `char`.
+
+  * NO AMBIENT STATE: the model has no `errno` that exists before the call and no notion of the kind of
+    file behind a path (regular file, pipe, FIFO): results are functions of the arguments and the bytes
+    delivered. The harness plants a different errno value (0, ENOMEM, ERANGE, EINTR, ENOENT, EINVAL,
+    EAGAIN, ENOBUFS) before every library call and feeds documents through pipes as well as files; a
+    result that depends on either is a correspondence break (a hang: the per-call watchdog).
 -/
 import QlibcModel.Base.Fault
 import QlibcModel.Generated.EncodeTables
